@@ -104,3 +104,28 @@ Fixpoint record_marks (c : Z) (tr : list event) : list Z :=
   end.
 (* ThetaHolder.is_complete *)
 Definition is_complete (n_thetas len : Z) : bool := len =? n_thetas.
+
+(* ---- vocabulary of the source translation (Generated/SrcSampling.v, harness/py2gal.py) ----
+   The translated function threads one state variable: the world = (calls issued so far on the model
+   and on the holder, len(results.thetas)).  The numpy / holder primitives it calls: *)
+Definition world : Type := (list event * Z)%type.
+Definition emit (w : world) (e : event) : world := (fst w ++ [e], snd w).
+(* results.add_theta(...): ThetaHolder raises when full *)
+Definition add_theta (n_thetas : Z) (w : world) : result world :=
+  if n_thetas <=? snd w then Err 1 else Ok (fst w ++ [Record], snd w + 1).
+(* numpy.random.SeedSequence(seed).spawn(n): the parent entropy and the number of children *)
+Definition seeds : Type := (Z * Z)%type.
+Definition spawn_seeds (seed n : Z) : result seeds :=
+  if seed <? 0 then Err 2 else if n <? 0 then Err 3 else Ok (seed, n).
+(* default_rng(children[i]): python list indexing (negative i counts from the end); child i has spawn_key (i,) *)
+Definition rngkey : Type := (Z * list Z)%type.
+Definition rng_of_spawned (s : seeds) (i : Z) : result rngkey :=
+  let n := snd s in
+  if (0 <=? i) && (i <? n) then Ok (fst s, [i])
+  else if (- n <=? i) && (i <? 0) then Ok (fst s, [n + i])
+  else Err 4.
+(* default_rng(seed) *)
+Definition rng_of_seed (seed : Z) : result rngkey := if seed <? 0 then Err 2 else Ok (seed, []).
+(* the Theta objects themselves are abstracted *)
+Definition theta : Type := unit.
+Definition vi_samples (returned : nat) : list theta := repeat tt returned.
